@@ -963,6 +963,65 @@ class ProxyEnv:
     def aop(self):
         return self._e().aop()
 
+    def op(self):
+        hook = getattr(self, "before_op", None)
+        if hook is not None:
+            hook()
+        return self._e().op()
+
+
+def run_nested(cfg: dict, events_a: list[dict], events_b: list[dict], *, entry: str = "Retry",
+               nest_at: int = 1, place: str = "ctor"):
+    """Re-entrancy on ONE sync policy object: run A's nest_at-th operation invocation first makes a
+    complete run B through the same object, then produces its own outcome.  -> (trace_a, trace_b).
+    cfg must not use a budget (each run has its own clock)."""
+    envs = [Env(cfg, ev, is_async=False) for ev in (events_a, events_b)]
+    px = ProxyEnv(envs)
+    px.is_async = False
+    ctor, call = retry_kwargs(px, cfg, place=place)   # type: ignore[arg-type]
+    invoke = make_entry(entry, px, ctor, call)         # type: ignore[arg-type]
+    modes = [next((e["mode"] for e in ev if e["e"] == "deliver"), "exec") for ev in (events_a, events_b)]
+    results: list = [None, None]
+    state = {"nested": False}
+
+    def run(i):
+        try:
+            results[i] = ("ok", invoke(modes[i]))
+        except BaseException as exc:  # noqa: BLE001
+            results[i] = ("exc", exc)
+
+    def before_op():
+        if px.cur == 0 and not state["nested"] and envs[0].ninv + 1 == nest_at:
+            state["nested"] = True
+            px.cur = 1
+            vtime.set_active(envs[1].clock)
+            run(1)
+            px.cur = 0
+            vtime.set_active(envs[0].clock)
+    px.before_op = before_op
+    try:
+        for e in envs:
+            e.start_run()
+        px.cur = 0
+        vtime.set_active(envs[0].clock)
+        run(0)
+    finally:
+        vtime.set_active(None)
+    out = []
+    for i, e in enumerate(envs):
+        if results[i] is None:          # run A ended before its nest_at-th invocation
+            out.append(None)
+            continue
+        kind, val = results[i]
+        px.cur = i
+        if kind == "exc":
+            view = e.view_of_exception(val)
+        else:
+            view = e.view_of_return(val) if modes[i] == "call" else e.view_of_outcome(val)
+        e.trace.append({"e": "deliver", "mode": modes[i], "v": view, "t": e.now(), "gap": 0})
+        out.append(e.trace)
+    return out[0], out[1]
+
 
 def run_overlap(cfg: dict, events_a: list[dict], events_b: list[dict], *, entry: str = "AsyncRetry",
                 switch_at: int = 2, async_callbacks=True, place: str = "ctor"):
